@@ -4,6 +4,7 @@ Reference interval model; every process carries a unique Label/Pnn so hed's base
 ambiguity. Observed on the real EventManager and HedTagManager.
 """
 import re
+import zlib
 
 from hedmon.core import env
 from hedmon.oracle import hedparse
@@ -21,9 +22,11 @@ ASSUMPTIONS = ["interval model in this file; end of a Duration process computed 
                "rows that are blanked by merging equal onsets are 'don't care'; only the representative row of a time "
                "point is judged", "no Inset groups (not in the property's quantifier)", "schema 8.3.0"]
 MIN_MONITOR_EVALS = {"context-equals-model": 1000, "base-equals-model": 1000, "remaining-annotation": 1000,
-                     "event-context-group": 500, "unordered-rejected": 20}
+                     "event-context-group": 500, "unordered-rejected": 20, "manager-reused-with-other-type-list": 100}
 DEFS = ["(Definition/A, (Red))", "(Definition/B, (Blue))", "(Definition/V/#, (Item-count/#))"]
-PLAIN = ["Green", "Square", "Sensory-event", "Agent-action", "Purple", "Circle", "Triangle", "Yellow"]
+# (the last two are "type" tags: an unfolding that is asked to remove a type takes them out, any other keeps them)
+PLAIN = ["Green", "Square", "Sensory-event", "Agent-action", "Purple", "Circle", "Triangle", "Yellow",
+         "Condition-variable/Fast", "Condition-variable/Slow"]
 UNITS = [("s", 1.0), ("ms", 0.001), ("minute", 60.0), ("hour", 3600.0), ("seconds", 1.0), ("minutes", 60.0)]
 
 
@@ -199,6 +202,26 @@ def check_case(case, rec):
                 base.append(p["pid"])
         model_ctx.append(sorted(ctx))
         model_base.append(sorted(base))
+    if zlib.crc32(repr(case["rows"]).encode()) % 3 == 0:
+        # one event manager unfolded with a type list and then without one: the second result is that of a fresh manager
+        rec.mon("manager-reused-with-other-type-list")
+        try:
+            def texts(objs0):
+                return [hedparse.canon_text(str(o)) if o else "" for o in objs0]
+            first = texts(HedTagManager(em, remove_types=["Condition-variable"]).get_hed_objs(include_context=True))
+            second = texts(HedTagManager(em).get_hed_objs(include_context=True))
+            em_f = EventManager(TabularInput(df.copy()), schema, extra_defs=dd)
+            fresh_plain = texts(HedTagManager(em_f).get_hed_objs(include_context=True))
+            em_g = EventManager(TabularInput(df.copy()), schema, extra_defs=dd)
+            fresh_typed = texts(HedTagManager(em_g, remove_types=["Condition-variable"]).get_hed_objs(include_context=True))
+        except Exception as ex:  # noqa
+            rec.violation(f"unfolding one event manager twice raised {type(ex).__name__}", case)
+            return True
+        if any("condition-variable" in repr(x).casefold() for x in fresh_plain):
+            rec.count("type-list-history", "type-tag-written-in-the-file")
+        if second != fresh_plain or first != fresh_typed:
+            rec.violation("unfolding an event manager gives another result after it was unfolded with another type list", case)
+            return True
     tm = None
     try:
         tm = HedTagManager(em)
@@ -296,9 +319,23 @@ def run_shard(shard, rec):
                 ucase = dict(kind="unordered", rows=rows)
                 rec.case(rows)
                 check_unordered(ucase, rec)
+            # late in a long recording, one row a small step back in time (small against the onset, not against zero)
+            base, step = rng.choice([(2000.0, 0.01), (3600.25, 0.03), (86400.5, 0.25), (5000.0, 0.0001)])
+            rows = [[repr(round(base + float(r[0]), 4)), r[1]] for r in case["rows"]]
+            i = rng.randrange(1, len(rows))
+            rows[i][0] = repr(round(float(rows[i - 1][0]) - step, 4))
+            rec.count("unordered-kind", "small-step-back-at-a-late-onset")
+            rec.case(rows)
+            check_unordered(dict(kind="unordered", rows=rows), rec)
 
 
 def finalize(merged, tier, inconclusive):
+    got = merged.hist.get("unordered-kind", {}).get("small-step-back-at-a-late-onset", 0)
+    if got < 20:
+        inconclusive.append(f"files with a small step back at a late onset: {got} (< 20)")
+    got = merged.hist.get("type-list-history", {}).get("type-tag-written-in-the-file", 0)
+    if got < 30:
+        inconclusive.append(f"event managers unfolded twice over a file with a type tag written in it: {got} (< 30)")
     if merged.evaluations and merged.discarded > 0.02 * merged.evaluations:
         inconclusive.append(f"{merged.discarded} of {merged.evaluations} generated histories were rejected by "
                             "pre-validation (> 2 %): generator and hed disagree on validity")
